@@ -593,13 +593,14 @@ func runCase(c Case, ctx *hx.Ctx) *hx.Failure {
 				for _, o := range calls {
 					// pending, or cancelled and never answered (the connection still waits for that reply:
 					// a further reply then counts as the late reply to the abandoned query, not as a surplus one)
-					if o == cl || o.answered {
+					if o == cl {
 						continue
 					}
 					// (a cancelled query may have been re-sent on another idle connection by the transport's retry:
-					// every sighting counts, not only the first)
-					for _, sg := range w.Seen(o.name) {
-						if sg.Conn == cl.conn {
+					// every sighting counts, not only the first; the harness only ever answers the first sighting,
+					// so a re-sent copy stays unanswered even after the late reply to the first one)
+					for i, sg := range w.Seen(o.name) {
+						if sg.Conn == cl.conn && (!o.answered || i > 0) {
 							busy = true
 						}
 					}
@@ -661,8 +662,8 @@ func runCase(c Case, ctx *hx.Ctx) *hx.Failure {
 			if cl.err == nil {
 				return hx.Failf("C01/cancelled-call-got-reply", "call %d was cancelled before any reply to it existed, yet it returned a reply", cl.idx)
 			}
-		case "late": // the reply to an abandoned query arrives now
-			if rt != nil || c.Engine == "reuse" {
+		case "late": // the reply to an abandoned query arrives now (on a non-pipelined connection it is the one reply the server owes)
+			if rt != nil {
 				continue
 			}
 			var ab []*call
